@@ -34,7 +34,7 @@ def run(ctx: Ctx):
     # a travelling vehicle's stored route stays anchored at its position: the traversal contract move() relies on
     from . import c06
     ctx.attempt(c06.split, ctx)
-    ctx.attempt(c06.partition, ctx)
+    ctx.attempt(c06.partition, ctx, False)
     ctx.attempt(c06.move_bookkeeping, ctx, ("position", "route"))  # odometer and energy are C06's / C04's
     # the geoid of a station/base compared in the guards is the entity's own position cell: `geoid` property
     ctx.floor("GD.LOC", 11)
